@@ -62,6 +62,7 @@ THEOREMS = [
     "MCHap.C08.record_function_of_locus",
     "MCHap.C08.step?_sound",
     "MCHap.C08.runSchedule_sound",
+    "MCHap.C08.isShuffle_sound",
 ]
 RULE = ("cases: (n,k) pairs for array_split; forced schedules of the real worker/writer/main code (k workers, n loci, "
         "0..2 failing loci, random enabled moves); fits (DenovoMCMC with/without tempering, CallingMCMC Gibbs/MH) before/after "
@@ -93,6 +94,15 @@ def split_out(text):
     return hdr, recs
 
 
+def once(chk, key, sample):
+    """a sample for the evidence file, at most one per kind of case"""
+    seen = chk.__dict__.setdefault("_sampled", set())
+    if key in seen:
+        return None
+    seen.add(key)
+    return sample
+
+
 def rid(line):
     f = line.split("\t")
     return f[2] if len(f) > 2 else "?"
@@ -117,11 +127,16 @@ class Runner:
         self.chk = chk
         self.n = 0
 
-    def __call__(self, argv, what):
+    def __call__(self, argv, what, base=False):
+        """(header, records); the base run of a program must succeed (else infrastructure failure); any other run
+        failing on inputs derived from a successful base run contradicts the property and is reported"""
         out, code, err = synth.run_program(argv)
         self.n += 1
         if code != 0:
-            raise C.Infra(f"{what}: in-process run failed with exit {code}: {err[:400]}")
+            if base:
+                raise C.Infra(f"{what}: in-process run failed with exit {code}: {err[:400]}")
+            self.chk.violation(f"{what}: the program fails (exit {code}) although the plain single-core run succeeds",
+                               {"what": what, "argv": argv, "exit": code, "error": err[:500]}, "C08/run/status")
         self.raw_header = [l for l in out.split("\n") if l.startswith("#")]
         return split_out(out)
 
@@ -145,7 +160,8 @@ def check_split(chk, drv, r, tier):
         except ValueError:
             impl, blocks = "error:ValueError", None
         chk.count("split")
-        chk.case(f"split {n} {k}", n >= 3 and k >= 2, sample={"request": f"sched.split {n} {k}", "impl": impl, "model": a})
+        smp = once(chk, "split", {"request": f"sched.split {n} {k}", "impl": impl, "model": a}) if (n >= 5 and k >= 2 and n % k) else None
+        chk.case(f"split {n} {k}", n >= 3 and k >= 2, sample=smp)
         if impl != a:
             chk.disagreement("np.array_split block sizes != arraySplit", {"n": n, "k": k, "impl": impl, "model": a})
         if blocks is not None:
@@ -504,7 +520,8 @@ def check_protocol(chk, drv, r, tier):
             continue
         impl = f"{kind} | {' '.join(lines)} | {qlen}"
         model = f"{m_exit} | {m_out} | {m_q}"
-        chk.case(req, n >= 3 and k >= 2, sample={"request": req, "impl": impl, "model": model})
+        smp = once(chk, "schedule", {"request": req, "impl": impl, "model": model}) if (fails and n >= 4) else None
+        chk.case(req, n >= 3 and k >= 2, sample=smp)
         if impl != model:
             chk.disagreement("real protocol code != model under the same schedule",
                              {"request": req, "impl": impl, "model": model, "main": m_main, "exception": exc})
@@ -597,9 +614,10 @@ def check_fits(chk, r, tier):
         chk.count("fit:other-seed-differs" if other != a else "fit:other-seed-same")
         case = {"kind": kind, "ploidy": ploidy, "n_alleles": n_alleles, "seed": seed, "perturb": perturb,
                 "k1": k1, "k2": k2, "reads": reads.shape, "case": i}
-        chk.case(case, observable, sample={"request": f"fit {kind} seed={seed} perturb={perturb}",
-                                           "impl": "identical" if a == b else "different",
-                                           "model": "identical (fit_independent_of_prior_rng)"})
+        chk.case(case, observable, sample=once(chk, "fit", {
+            "request": f"fit {kind} seed={seed} perturb={perturb}",
+            "impl": "identical" if a == b else "different",
+            "model": "identical (fit_independent_of_prior_rng)"}))
         if a != b:
             chk.violation(f"{kind}: .fit() with a fixed seed returns a different trace after {perturb}",
                           case, "C08/history/fit")
@@ -666,7 +684,7 @@ def check_cli(chk, drv, r, tier, work):
         tag = {"dataset": d, "n_loci": n_loci, "n_samples": n_samples}
 
         # ---------------- assemble
-        hdr0, recs0 = run(ds.assemble_argv(*common), "assemble base")
+        hdr0, recs0 = run(ds.assemble_argv(*common), "assemble base", base=True)
         raw_hdr = list(run.raw_header)
         base = by_id(recs0)
         chk.count("cli:assemble-base")
@@ -762,7 +780,7 @@ def check_cli(chk, drv, r, tier, work):
                 extra += ["--sample-parents", ped]
             argv0 = ds.call_argv(prog, hv, *extra)
             perturb_process(r)
-            ch0, cr0 = run(argv0, f"{prog} base")
+            ch0, cr0 = run(argv0, f"{prog} base", base=True)
             cbase = by_id(cr0)
             chk.count(f"cli:{prog}-base")
             perturb_process(r)
@@ -893,7 +911,8 @@ def run_subprocesses(chk, drv, sub_jobs, drv_reqs):
         chk.extra.setdefault("subprocess_wall_s", {})[label] = round(dt, 1)
         nontriv = len(exp["ids"]) >= 3 and exp["cores"] >= 2
         chk.case({**tag, "what": "subprocess", "label": label}, nontriv,
-                 sample={"request": label, "impl": f"exit {code}, records {order}", "model": "see oracles"})
+                 sample=once(chk, "subprocess", {"request": label, "impl": f"exit {code}, records {order}",
+                                                 "model": "see oracles"}))
         if code == 124:
             chk.violation(f"{label}: no exit within {TIMEOUT} s", {**tag, "argv": argv}, "C08/multicore/hang")
             continue
@@ -902,7 +921,10 @@ def run_subprocesses(chk, drv, sub_jobs, drv_reqs):
                 chk.violation(f"{label}: a record line is not intact", {**tag, "line": l[:300]}, "C08/cores/intact")
         if "fault" not in exp:
             if code != 0:
-                raise C.Infra(f"{label}: subprocess failed with exit {code}: {err[-400:]}")
+                chk.violation(f"{label}: the program fails (exit {code}) although the single-core in-process run succeeds",
+                              {**tag, "argv": argv, "exit": code, "stderr": err.strip().split("\n")[-1][:400]},
+                              "C08/run/status")
+                continue
             compare_records(chk, label + " (subprocess)", exp["base"], recs, "C08/cores/multiset", tag, exp["ids"])
             if hdr != exp["hdr"]:
                 chk.violation(f"{label}: header differs from the single-core in-process run", tag, "C08/header")
